@@ -292,10 +292,11 @@ func (r *Runner) c09Fixtures() map[string]string {
 		"do_noerr":           "func use() { _, _, _ = deriveDo(zero, zero) }",
 		"do_one":             "func use() { _, _ = deriveDo(ferr) }",
 		"tuple_none":         "func use() { _ = deriveTuple() }",
+		"tuple_nil":          "func use() { _ = deriveTuple(1, nil) }",
 		"toerror_noresult":   "func use() { _ = deriveToError(errX, zero) }",
 		"toerror_nonfunc":    "func use() { _ = deriveToError(errX, 3) }",
-		"toerror_nobool":    "func use() { _ = deriveToError(errX, one) }",
-		"toerror_noterror":  "func use() { _ = deriveToError(3, func(a int) (int, bool) { return a, true }) }",
+		"toerror_nobool":     "func use() { _ = deriveToError(errX, one) }",
+		"toerror_noterror":   "func use() { _ = deriveToError(3, func(a int) (int, bool) { return a, true }) }",
 		"traverse_nonfunc":   "func use() { _, _ = deriveTraverse(3, []int{1}) }",
 		"traverse_noerr":     "func use() { _, _ = deriveTraverse(one, []int{1}) }",
 		"unique_func":        "func use() { _ = deriveUnique([]func(){}) }",
